@@ -8,7 +8,7 @@ Inductive status := SDone | SReady | SNotified | SBlocked (timeout : bool).
 
 (* one scheduled run of the real class: scenario + observation *)
 Inductive c19case :=
-| Case (fixed atomic : bool) (P : list (list hop)) (C : list cop) (sched : list nat)
+| Case (fixed recheck atomic : bool) (P : list (list hop)) (C : list cop) (sched : list nat)
        (tr : list (list lbl))            (* labels of the accesses performed at each choice *)
        (stat : status) (pdone : bool)    (* consumer status and "all producers finished" at the end *)
        (fbuf : list pv) (fiev fcev fconn fnsup : bool).   (* final buffer and flags *)
@@ -51,8 +51,8 @@ Definition status_of (c : cfg) : status :=
 (* ---- correspondence: the model run on the same scenario and schedule ---- *)
 Definition agree (k : c19case) : bool :=
   match k with
-  | Case fixed atomic P C sched tr stat pdone fbuf fiev fcev fconn fnsup =>
-      let v := mkVariant fixed in
+  | Case fixed recheck atomic P C sched tr stat pdone fbuf fiev fcev fconn fnsup =>
+      let v := mkVariant fixed recheck in
       let c := run v atomic (init P C) sched in
       list_eqb (list_eqb lbl_eqb) (trace v atomic (init P C) sched) tr &&
       status_eqb (status_of c) stat && Bool.eqb (prods_done c) pdone &&
@@ -135,7 +135,7 @@ Definition domain_mask (P : list (list hop)) (bits : nat) : nat :=
   else bits - (if Nat.eqb (Nat.land bits 16) 0 then 0 else 16) - (if Nat.eqb (Nat.land bits 64) 0 then 0 else 64).
 Definition prop_bits (k : c19case) : nat :=
   match k with
-  | Case fixed atomic P C sched tr stat pdone fbuf fiev fcev fconn fnsup =>
+  | Case fixed recheck atomic P C sched tr stat pdone fbuf fiev fcev fconn fnsup =>
       let g := walk sched tr g0 in
       domain_mask P (g_bits g) + (if chk_fifo tr fbuf then 0 else 4) +
       (if chk_hang tr stat pdone fconn then 0 else 128) +
@@ -149,8 +149,8 @@ Definition c19_eval (k : c19case) : nat :=
 
 Definition c19_explain (k : c19case) :=
   match k with
-  | Case fixed atomic P C sched tr stat pdone fbuf fiev fcev fconn fnsup =>
-      let v := mkVariant fixed in
+  | Case fixed recheck atomic P C sched tr stat pdone fbuf fiev fcev fconn fnsup =>
+      let v := mkVariant fixed recheck in
       let c := run v atomic (init P C) sched in
       (trace v atomic (init P C) sched, status_of c, prods_done c, sh c, prop_bits k)
   end.
